@@ -14,7 +14,11 @@ CLAIMED = {
    technique="Lean 4 theorem over regenerated table + model/implementation differential with spec oracle",
    design='7/C01'),
  'C02': dict(
-   text=("Proof (Lean 4): JA4 is invariant under every permutation of the cipher list and of the extension list (ja4_perm; sort "
+   text=("Proof (Lean 4): for every well-formed ClientHello h and truncated hash T, ja4Header T (serialize h) = ja4Spec T h "
+         "(ja4_of_hello: parseView∘serialize = viewOf for every HelloWF4 hello by induction over the extension list incl. the "
+         "server_name / ALPN / signature_algorithms / supported_versions body parsers; ja4_view_eq_spec: version, SNI flag, counts, "
+         "ALPN code, sorted cipher and extension lists, signature algorithms of the parsed view are the specification's). "
+         "JA4 is invariant under every permutation of the cipher list and of the extension list (ja4_perm; sort "
          "uniqueness, commutative version maximum) and under GREASE values added to ciphers, extensions, supported_versions and "
          "signature_algorithms (grease_*), has the form a_b_c with saturating two-digit counts (ja4_form, count_saturates), for any "
          "truncated hash T; tables/format facts regenerated from pkg/ja4; model of utls FromRaw + pkg/ja4 tied to the code by an "
